@@ -65,6 +65,10 @@ def run(ctx):
     # oversized / maximal chunks
     hist.append(("bool", 8, 0, 1, ["H", "X%d" % (1 << 24), "Z", "F", "D"]))
     hist.append(("bool", 13, 0, 1, ["H", "X%d" % ((1 << 24) - 1), "Z", "F", "D"]))
+    # oversized chunks under delta encoding: the limit is on the chunk's length, whatever the delta order
+    for od in (1, 3, 7):
+        hist.append(("bool", 8, od, 1, ["H", "X%d" % ((1 << 24) - 1 + od), "Z", "X%d" % (1 << 24), "Z", "C1,0,1", "F", "D"]))
+    hist.append(("i16", 5, 2, 0, ["H", "X%d" % ((1 << 24) + 1), "Z", "F", "D"]))
     if not ctx.quick:
         hist.append(("bool", 8, 0, 1, ["H", "X%d" % ((1 << 24) - 1), "Z", "F", "D"]))
     lines = ["cops %s %d %d %d %s" % (dt, lv, od, g, " ".join(ops)) for (dt, lv, od, g, ops) in hist]
